@@ -16,22 +16,34 @@ def type_str(t):
     return nm if not subs else nm + "<" + ",".join(type_str(s) for s in subs) + ">"
 
 
-def rand_type(rng, depth, hashable=False):
+def rand_type(rng, depth, hashable=False, rich=False):
+    """`hashable`: the type of a set element or mapping key -- its values must be hashable in Python.  Without `rich` these are
+    leaves and tuples of them; with `rich` ("any nesting") also sequences, sets and variants, whose values are then given as
+    tuples / frozensets / Variants of hashable parts (a mapping has no hashable Python form and stays out)."""
     if depth <= 0 or rng.random() < 0.35:
         return (rng.choice(HASHABLE_LEAVES if hashable else LEAVES), [])
+    if hashable and rich:
+        k = rng.choice(["tuple", "sequence", "set", "variant", "leaf"])
+        if k == "leaf":
+            return (rng.choice(HASHABLE_LEAVES), [])
+        if k in ("sequence", "set"):
+            return (k, [rand_type(rng, depth - 1, True, True)])
+        if k == "tuple":
+            return (k, [rand_type(rng, depth - 1, True, True) for _ in range(rng.choice([1, 2, 3]))])
+        return (k, [rand_type(rng, depth - 1, True, True) for _ in range(rng.choice([1, 2, 3]))])
     k = rng.choice(["tuple"] if hashable and rng.random() < 0.5 else
                    (["tuple"] if hashable else ["sequence", "set", "mapping", "tuple", "variant"]))
     if hashable and k != "tuple":
         return (rng.choice(HASHABLE_LEAVES), [])
     if k == "sequence":
-        return (k, [rand_type(rng, depth - 1)])
+        return (k, [rand_type(rng, depth - 1, rich=rich)])
     if k == "set":
-        return (k, [rand_type(rng, depth - 1, hashable=True)])
+        return (k, [rand_type(rng, depth - 1, hashable=True, rich=rich)])
     if k == "mapping":
-        return (k, [rand_type(rng, depth - 1, hashable=True), rand_type(rng, depth - 1)])
+        return (k, [rand_type(rng, depth - 1, hashable=True, rich=rich), rand_type(rng, depth - 1, rich=rich)])
     if k == "tuple":
-        return (k, [rand_type(rng, depth - 1, hashable) for _ in range(rng.choice([1, 1, 2, 3, 5]))])
-    return (k, [rand_type(rng, depth - 1) for _ in range(rng.choice([1, 2, 3, 11]))])
+        return (k, [rand_type(rng, depth - 1, hashable, rich) for _ in range(rng.choice([1, 1, 2, 3, 5]))])
+    return (k, [rand_type(rng, depth - 1, rich=rich) for _ in range(rng.choice([1, 2, 3, 11]))])
 
 
 def f64_bits(x):
@@ -150,7 +162,8 @@ def rand_f32_input(rng):
     return rand_f64(rng) if rng.random() < 0.5 else rng.uniform(-1e3, 1e3)
 
 
-def rand_value(rng, t, env, size=4):
+def rand_value(rng, t, env, size=4, frozen=False):
+    """`frozen`: the value is a set element or a mapping key -- sequences are given as tuples, sets as frozensets"""
     g = env.g
     nm, subs = t
     if nm in INTS:
@@ -169,22 +182,23 @@ def rand_value(rng, t, env, size=4):
         return g.Offset(env.rand_uuidish(rng), rng.choice([0, 1, (1 << 64) - 1, rng.getrandbits(64)]))
     n = rng.choice([0, 0, 1, 2, size])
     if nm == "sequence":
-        return [rand_value(rng, subs[0], env, size - 1) for _ in range(n)]
+        items = [rand_value(rng, subs[0], env, size - 1, frozen) for _ in range(n)]
+        return tuple(items) if frozen else items
     if nm == "set":
         out = set()
         for _ in range(n):
-            out.add(rand_value(rng, subs[0], env, size - 1))
-        return out
+            out.add(rand_value(rng, subs[0], env, size - 1, True))
+        return frozenset(out) if frozen else out
     if nm == "mapping":
         out = {}
         for _ in range(n):
-            out[rand_value(rng, subs[0], env, size - 1)] = rand_value(rng, subs[1], env, size - 1)
+            out[rand_value(rng, subs[0], env, size - 1, True)] = rand_value(rng, subs[1], env, size - 1)
         return out
     if nm == "tuple":
-        return tuple(rand_value(rng, s, env, size - 1) for s in subs)
+        return tuple(rand_value(rng, s, env, size - 1, frozen) for s in subs)
     if nm == "variant":
         i = rng.randrange(len(subs))
-        return g.serialization.Variant(i, rand_value(rng, subs[i], env, size - 1))
+        return g.serialization.Variant(i, rand_value(rng, subs[i], env, size - 1, frozen))
     raise AssertionError(nm)
 
 
@@ -216,10 +230,27 @@ def reform(rng, v, depth=0):
 
 
 # ---------------- Python value <-> sx ----------------
-def to_sx(v, env):
+def to_sx(v, env, t=None):
+    """Python value -> sx.  With a type tree `t` the container tags follow the TYPE (a sequence given as a tuple -- e.g. inside a
+    set, where elements must be hashable -- is still a sequence; a set given as a frozenset a set), otherwise the Python class."""
     g = env.g
     if isinstance(v, g.serialization.UnknownData):
         return [12, list(v)]
+    if t is not None and t[1] and not isinstance(v, (str, bytes)):
+        nm, subs = t
+        try:
+            if nm == "sequence":
+                return [7, [to_sx(x, env, subs[0]) for x in v]]
+            if nm == "set":
+                return [8, [to_sx(x, env, subs[0]) for x in v]]
+            if nm == "mapping":
+                return [9, [[to_sx(k, env, subs[0]), to_sx(x, env, subs[1])] for k, x in v.items()]]
+            if nm == "tuple" and len(v) == len(subs):
+                return [10, [to_sx(x, env, s) for x, s in zip(v, subs)]]
+            if nm == "variant" and isinstance(v, g.serialization.Variant) and 0 <= v.index < len(subs):
+                return [11, v.index, to_sx(v.val, env, subs[v.index])]
+        except (TypeError, AttributeError):
+            pass            # not a value of that type: fall back to the untyped reading
     if isinstance(v, bool):
         return [1, 1 if v else 0]
     if isinstance(v, int):
